@@ -11,8 +11,8 @@ for d in sorted(os.listdir(os.path.join(ROOT, 'seeded'))):
         continue
     m = json.load(open(mp))
     det = json.load(open(dp)) if os.path.exists(dp) else {}
-    what = re.sub(r'\s+', ' ', m.get('summary', ''))[:150].replace('|', '/')
-    needs = re.sub(r'\s+', ' ', m.get('what_it_needs_to_manifest', ''))[:130].replace('|', '/')
+    what = re.sub(r'\s+', ' ', (m.get('summary') or m.get('what') or ''))[:150].replace('|', '/')
+    needs = re.sub(r'\s+', ' ', (m.get('what_it_needs_to_manifest') or m.get('needs') or ''))[:130].replace('|', '/')
     for p, v in det.items():
         kind = {'failing-input': 'failing input replayed', 'broken-obligation': 'tie broken, no-failing-input-found'}.get(v.get('replay_kind'), str(v.get('replay_kind')))
         res = 'caught' if v.get('exit') == 1 and v.get('violation_line') else 'MISSED'
